@@ -218,7 +218,7 @@ def ppmd_params(c):
     return order, size
 
 
-def pyppmd_faulty(chain, stream, block=None) -> bool:
+def _pyppmd_faulty_here(chain, stream, block=None) -> bool:
     """True when the third-party codecs, driven directly and alone (pybcj + pyppmd, no py7zr code),
     fail to round-trip the very byte stream this chain feeds them, in the very chunks py7zr hands over
     (each member is read in I/O blocks; the encoders are stateful across chunks). Used only to
@@ -275,6 +275,24 @@ def pyppmd_faulty(chain, stream, block=None) -> bool:
         except Exception:
             return True
     return False
+
+
+def pyppmd_faulty(*args, **kw) -> bool:
+    """_pyppmd_faulty_here() in a forked child: the library driven alone may also kill the process it runs in (seen: SIGSEGV inside
+    this classifier, which made a worker die where a violation was to be classified). Death by a signal counts as faulty."""
+    import os
+
+    pid = os.fork()
+    if pid == 0:
+        code = 2
+        try:
+            code = 1 if _pyppmd_faulty_here(*args, **kw) else 0
+        finally:
+            os._exit(code)
+    _, st = os.waitpid(pid, 0)
+    if os.WIFSIGNALED(st):
+        return True
+    return os.WEXITSTATUS(st) != 0
 
 
 def rooted_in_rejection(e) -> bool:
